@@ -94,6 +94,22 @@ class C03:
         gshape = m.shape(self.mod, gnode)
         members = {x[1].split(":")[1] for x in (gshape[1] if gshape[0] == "union" else (gshape,)) if x[0] == "cls"}
         _, allnode = ctx.index.need_assign(GEO, "ALL_GEOMETRY_TYPES")
+
+        def table_of(node):
+            """the dictionary display a name / dict(name) stands for (a registry filled by a decorator is read as its table: sa/index.py)"""
+            for _ in range(4):
+                if isinstance(node, ast.Call) and isinstance(node.func, ast.Name) and node.func.id == "dict" and len(node.args) == 1 and not node.keywords:
+                    node = node.args[0]
+                elif isinstance(node, ast.Name) and len(self.mod.defs.get(node.id, [])) == 1 and isinstance(self.mod.defs[node.id][0], (ast.Assign, ast.AnnAssign)):
+                    node = self.mod.defs[node.id][0].value
+                else:
+                    break
+            return node if isinstance(node, ast.Dict) else None
+        inner_ = allnode
+        if isinstance(inner_, ast.Call) and isinstance(inner_.func, ast.Name) and inner_.func.id in ("list", "tuple") and len(inner_.args) == 1 and not inner_.keywords:
+            inner_ = inner_.args[0]
+        if isinstance(inner_, ast.Call) and isinstance(inner_.func, ast.Attribute) and inner_.func.attr == "values" and not inner_.args and table_of(inner_.func.value) is not None:
+            allnode = ast.copy_location(ast.List(elts=list(table_of(inner_.func.value).values), ctx=ast.Load()), allnode)
         listed = [ast.unparse(e) for e in allnode.elts] if isinstance(allnode, (ast.List, ast.Tuple)) \
             and not any(isinstance(e, ast.Starred) for e in allnode.elts) else None
         derived = False
@@ -139,6 +155,8 @@ class C03:
                 ctx.bad("R03.1", FILE, "GEOMETRY_MAPPING", f"tag {t!r} shared", f"tag {t!r} is shared by {cs}", 0)
         # GEOMETRY_MAPPING = {geom.geom_type(): geom for geom in ALL_GEOMETRY_TYPES}
         _, mp = ctx.index.need_assign(GEO, "GEOMETRY_MAPPING")
+        if table_of(mp) is not None:
+            mp = ast.copy_location(table_of(mp), mp)
         good = (isinstance(mp, ast.DictComp) and len(mp.generators) == 1 and not mp.generators[0].ifs
                 and ast.unparse(mp.generators[0].iter) == "ALL_GEOMETRY_TYPES"
                 and isinstance(mp.generators[0].target, ast.Name)
@@ -166,6 +184,22 @@ class C03:
             ctx.bad("R03.1", FILE, "BaseGeometry.geom_type", "return cls.model_fields['type'].default",
                     f"geom_type() returns {show(s.returns[0].term) if s.returns else '-'}", s.node.lineno)
         return classes
+
+    def _named_constants(self, t):
+        """a module-level numeric constant other than MAX_FREQUENCY (`MIN_TIME = 0`) stands for its value"""
+        if not isinstance(t, tuple) or not t:
+            return t
+        if t[0] == "global" and len(t) == 3 and t[2] == "assign" and t != self.MAXT and ":" in t[1]:
+            try:
+                _, nd = self.ctx.index.need_assign(*t[1].split(":"))
+            except Exception:  # noqa: BLE001
+                nd = None
+            if isinstance(nd, ast.Constant) and isinstance(nd.value, (int, float)) and not isinstance(nd.value, bool):
+                return ("const", nd.value)
+            if isinstance(nd, ast.UnaryOp) and isinstance(nd.op, ast.USub) and isinstance(nd.operand, ast.Constant) and isinstance(nd.operand.value, (int, float)):
+                return ("const", -nd.operand.value)
+            return t
+        return tuple(self._named_constants(c) if isinstance(c, tuple) else c for c in t)
 
     # ------------------------------------------------------------------ quantity naming
     def depth(self, t, summ: Summary, v) -> Optional[int]:
@@ -370,6 +404,7 @@ class C03:
                     return ("cmp", "le", ("const", 1), ("call", ("builtin", "len"), (t,), ()))
                 return t
             f = AND(*[truthy_to_len(x) for x in conj])
+            f = self._named_constants(f)
             for x in walk(f):
                 if x[0] == "cmp":
                     for side in (x[2], x[3]):
@@ -777,11 +812,20 @@ class C03:
         site = f"{FILE}:{s.node.lineno} geometry_validate"
         obj, mode = ("param", s.params[0]), ("param", s.params[1])
         calls = [e for e in s.calls if e.term[1][0] == "attr" and e.term[1][2] == "model_validate"]
-        if len(calls) != 1:
-            ctx.undec("R03.4", site, f"{len(calls)} model_validate calls")
-            return
+        # one validating call, or one per mode (the modes written as separate helpers): the call that is live for the mode
+        per_mode = {}
+        for mv_ in ("json", "dict", "attributes"):
+            livem = [e for e in calls if peval(e.live, {mode: mv_}) != ("const", False)]
+            if len(calls) == 1:
+                livem = calls
+            if len(livem) != 1:
+                ctx.undec("R03.4", site, f"{len(calls)} model_validate calls, {len(livem)} of them live in mode {mv_!r}")
+                return
+            per_mode[mv_] = livem[0]
         call = calls[0].term
-        kws = callkw(call)
+        kws = {}
+        for c_ in calls:
+            kws.update(callkw(c_.term))
         MAP = ("global", f"{GEO}:GEOMETRY_MAPPING", "assign")
         # options of the validating call that change WHAT is accepted (pydantic: strict refuses tuples / numeric strings that the
         # constructor coerces; a context can switch validators): the three modes must accept exactly what the constructor accepts
@@ -815,12 +859,15 @@ class C03:
 
         expected = {c_.name: ("global", f"{GEO}:{c_.name}", "class") for c_ in self.classes()}
         for mval in ("json", "dict", "attributes"):
+            cev = per_mode[mval]
+            call = cev.term
+            kws = callkw(call)
             fa = ev(kws.get("from_attributes", ("const", False)), mval)
             cls = ev(call[1][1], mval)
             arg = ev(call[2][0], mval) if call[2] else None
             # what the path to the validating call has established (hasattr(obj, "type") and the like) holds in its operands
             asm = {}
-            for cj in conjuncts(ev(calls[0].live, mval)):
+            for cj in conjuncts(ev(cev.live, mval)):
                 if cj[0] == "call":
                     asm[cj] = True
                 elif cj[0] == "not" and cj[1][0] == "call":
@@ -913,7 +960,7 @@ class C03:
                 return _truth(peval(r_, asg)) if asg else _truth(r_)
             decided_for[mval] = decided
             live_raises = [r for r in s.raises if not r.in_handler and decided(r.live) is not False]
-            reach = decided(calls[0].live)
+            reach = decided(per_mode[mval].live)
             v_ = via(mval)
             if v_ is not None:
                 # first leg: the input reaches the tail call, no own rejection is live before it
@@ -934,14 +981,14 @@ class C03:
         hs = [h for t in s.tries.values() for h in t.handlers if any(n.split(".")[-1] == "ValidationError" for n in h[1])]
         conv = [r for r in s.raises if r.in_handler and any(h[0] in r.in_handler for h in hs)]
         ok = conv and all((r.term[1] if r.term[0] == "raise_from" else r.term)[1] == ("builtin", "ValueError") for r in conv)
-        if calls[0].handlers and ok:
+        if all(c_.handlers for c_ in calls) and ok:
             ctx.ok("R03.4", site, "ValidationError converted to ValueError")
         else:
             ctx.bad("R03.4", FILE, "geometry_validate", "except ValidationError -> ValueError",
                     "a pydantic ValidationError is not converted into the documented ValueError", calls[0].lineno)
         unknown = [r for r in s.raises if any(x == ("cmp", "notin", x[2], MAP) for x in conjuncts(r.live) if x[0] == "cmp" and x[1] == "notin")
                    or any(x[0] == "cmp" and x[1] == "is" and x[3] == NONE and x[2][0] == "call" and x[2][1] == ("attr", MAP, "get")
-                          and x[2] == call[1][1] for x in conjuncts(r.live))]
+                          and any(x[2] == c_.term[1][1] for c_ in calls) for x in conjuncts(r.live))]
         if not unknown:
             # by scenario: an input whose tag is none of the table's meets a live rejection of the function's own in every mode
             def rejected(mval):
